@@ -38,6 +38,7 @@ from common import REPO, VERIF, Check, f2h, h2f, use_repo
 sys.path.insert(0, str(VERIF / "harness" / "translators"))
 import tr_tuning  # noqa: E402
 import tr_runorder  # noqa: E402
+import c15_routes  # noqa: E402
 
 LEVEL = "proof"
 KINDS = ("scaler", "window", "dirichlet", "hmc", "block")
@@ -217,6 +218,9 @@ def build_operators(spec_ops, params, joint):
         else:
             raise ValueError(o["kind"])
         ops.append(op)
+    for o, op in zip(spec_ops, ops):
+        # the window length the object really has (from_json applies the JSON layer's default)
+        o["window_len"] = int(op._accept_window_length)
     return ops
 
 
@@ -631,7 +635,7 @@ def enc_machine(cfg, state, lj, epoch, acc_total, opstates, masses=None, modes=N
     w += [f2h(lj), str(epoch), str(acc_total), str(len(cfg["ops"]))]
     for oi_, (o, st) in enumerate(zip(cfg["ops"], opstates)):
         w += [o["kind"], str(len(o["pidx"]))] + [str(k) for k in o["pidx"]]
-        w += [f2h(o["target"]), "0" if o["adapt"] else "1", str(0 if (o.get("via") == "json" and o["kind"] != "hmc") else o.get("window_len", 100)), f2h(st["scale"]),
+        w += [f2h(o["target"]), "0" if o["adapt"] else "1", str(o.get("window_len", 100)), f2h(st["scale"]),
               str(st["adapt_count"]), str(st["accept"]), str(st["reject"]), str(len(st["window"]))]
         w += [str(x) for x in st["window"]]
         if o["kind"] == "block":
@@ -1671,6 +1675,14 @@ def run(ck: Check):
             tune_sequences(ck, drv, rng, 200 if thorough else 40, found)
             precision_cases(ck, drv, rng, 400 if thorough else 80, found)
         probe_boldness(ck, rng)
+        # construction routes, deep copies (checklist items 1 and 5)
+        try:
+            c15_routes.simple_operator_routes(ck, rng, found, Scripted, thorough)
+            c15_routes.adaptor_routes(ck, rng, found, thorough)
+            c15_routes.integrator_routes(ck, rng, found)
+            c15_routes.deepcopy_cases(ck, rng, found, Scripted)
+        except Exception as e:  # anything unexpected read from the implementation: a recorded mismatch, not a crash
+            ck.mismatch("construction-route cases stopped", {"error": f"{type(e).__name__}: {str(e)[:200]}"})
     finally:
         if drv:
             drv.close()
@@ -1687,6 +1699,8 @@ def run(ck: Check):
                   "replay_cmd": "./check C15 --replay <this file>"}
             if "tune_only" in cfg:
                 rp["tune_only"] = cfg["tune_only"]
+            elif "route_case" in cfg:
+                rp["route_case"] = cfg["route_case"]
             else:
                 rp["cfg"], rp["tape_seed"] = cfg, item[4] if len(item) > 4 else None
             ck.violation(sig, f"{obs['clause']} [{sig}]", rp)
@@ -1709,6 +1723,21 @@ def replay(path: str) -> int:
         bad = (t["acc"] >= t["target"] and b1 < b0 * (1 - 1e-12)) or not adm
         print("VIOLATES" if bad else "ok")
         return 1 if bad else 0
+    if "route_case" in obj:
+        ck = Check("C15", "quick", 0)
+        found = []
+        import random as _r
+
+        rng = _r.Random(0)
+        c15_routes.simple_operator_routes(ck, rng, found, Scripted, True)
+        c15_routes.adaptor_routes(ck, rng, found, True)
+        c15_routes.integrator_routes(ck, rng, found)
+        c15_routes.deepcopy_cases(ck, rng, found, Scripted)
+        hits = [f for f in found if f[0] == obj.get("signature")]
+        for f in hits[:3]:
+            print(f[0], json.dumps(f[1], default=str)[:600])
+        print("VIOLATES" if hits else "ok")
+        return 1 if hits else 0
     if "cfg" not in obj:
         print("replay names broken obligations only:", obj.get("broken_obligations"),
               [m.get("what") for m in obj.get("mismatches", [])])
